@@ -682,6 +682,16 @@ func rawClient(cw *c16World, sc *WireScn, ci int, spec WireClient, cl *Client, f
 					cut = i
 				}
 			}
+			switch r.Int(5) {
+			case 0:
+				// ... or between two fragments of the record: the silence begins right after a complete non-final
+				// fragment, i.e. while the server waits for the next fragment header
+				k := 4 * (1 + r.Int(len(b)/4-1))
+				wire = nfsclient.Frame(b, []int{k})
+				cut = 4 + k
+			case 1:
+				cut = 1 + r.Int(3) // ... or inside the four bytes of the record mark itself
+			}
 			cl.Conn.Write(wire[:cut])
 			simrt.Fault("net.stall_midrecord")
 			simrt.Sleep(time.Duration([]int{2, 8, 33, 70}[r.Int(4)]) * time.Second)
